@@ -133,10 +133,12 @@ theorem inArr_newOffsetArray (h : Heap) (off : Int) (s : Slice) : InArr (Impl.ne
   simp only []
   split
   · exact inArr_hnone _
-  · intro t ht
-    simp only [HVal.slice?, Option.some.injEq] at ht
-    subst ht
-    rw [trimBack_arr, trimFront_arr]
+  · split
+    · exact inArr_hnone _
+    · intro t ht
+      simp only [HVal.slice?, Option.some.injEq] at ht
+      subst ht
+      rw [trimBack_arr, trimFront_arr]
 
 /-! ### the operations -/
 
@@ -146,9 +148,9 @@ theorem opOK_asSeq (k : Kind) (h : Heap) (ps : List (Int × V)) : OpOK h (Impl.a
   | nil => exact OpOK.same (live_hnone h)
   | cons p r =>
     simp only []
-    have f0 : Fresh h.length h (mkSlice h (match k with | .B => some (.num 0) | _ => none)
+    have f0 : Fresh h.length h (mkSlice h k.fill
         ((maxIdx (p :: r) - minIdx (p :: r) + 1).toNat) 0) := Fresh.ofMk (Frame.start h) (Nat.le_refl _) _ _ _
-    have f1 := Fresh.foldStore (mkSlice h (match k with | .B => some (.num 0) | _ => none)
+    have f1 := Fresh.foldStore (mkSlice h k.fill
         ((maxIdx (p :: r) - minIdx (p :: r) + 1).toNat) 0).2
         (fun iv : Int × V => (iv.1 - minIdx (p :: r)).toNat) (fun iv => [some iv.2]) (p :: r) f0
     exact OpOK.ofFresh f1 _ _ _
@@ -196,29 +198,34 @@ theorem opOK_seqWith (orc : Oracle) (k : Kind) (h : Heap) (s : Slice) (off : Int
     · exact OpOK.ofFresh ((f1.append orc k.zero _).append orc k.zero _) _ _ _
     · split
       · exact OpOK.ofFresh ((f1.append orc k.zero _).append orc k.zero _) _ _ _
-      · exact OpOK.same (live_other h _)
+      · split
+        · exact opOK_finishV _ _
+        · exact OpOK.same (live_other h _)
+
+theorem inArr_trimHoles (h : Heap) (s : Slice) (off : Int) (holes : Nat) : (Impl.trimHoles h s off holes).1.arr = s.arr := rfl
 
 theorem opOK_strWithout (h : Heap) (s : Slice) (off : Int) (holes : Nat) (at_ : Int) (c : V)
     (hs : s.arr < h.length) : OpOK h (Impl.strWithout h s off holes at_ c) := by
   unfold Impl.strWithout
   simp only []
   have f1 : Fresh h.length h (mkSlice h (Kind.zero .S) s.len 0) := Fresh.ofMk (Frame.start h) (Nat.le_refl _) _ _ _
+  have f3 := (f1.copy (read h s)).store (Impl.index off s.len at_).toNat [none]
+  -- whichever case applies, the result's slice is a re-slice (trimHoles) of the receiver's or of the fresh copy
   split <;> rename_i h1
   · split
     · exact OpOK.same (live_hnone h)
-    · exact OpOK.same (live_seq hs)
+    · exact OpOK.same (live_seq (by rw [inArr_trimHoles]; exact hs))
   · split <;> rename_i h2
     · split
       · exact OpOK.same (live_hnone h)
-      · exact OpOK.same (live_seq hs)
+      · exact OpOK.same (live_seq (by rw [inArr_trimHoles]; exact hs))
     · split <;> rename_i h3
-      · have f3 := (f1.copy (read h s)).store (Impl.index off s.len at_).toNat [none]
-        split
+      · split
         · exact ⟨f3.frame, live_hnone _⟩
-        · exact OpOK.ofFresh f3 _ _ _
+        · exact ⟨f3.frame, live_seq (by rw [inArr_trimHoles]; exact f3.lt)⟩
       · split
         · exact OpOK.same (live_hnone h)
-        · exact OpOK.same (live_seq hs)
+        · exact OpOK.same (live_seq (by rw [inArr_trimHoles]; exact hs))
 
 theorem opOK_bytesWithout (h : Heap) (s : Slice) (off : Int) (at_ : Int) (c : V)
     (hs : s.arr < h.length) : OpOK h (Impl.bytesWithout h s off at_ c) := by
@@ -226,8 +233,12 @@ theorem opOK_bytesWithout (h : Heap) (s : Slice) (off : Int) (at_ : Int) (c : V)
   simp only []
   split
   · split
-    · exact OpOK.same (live_seq hs)
     · exact OpOK.same (live_hnone h)
+    · split
+      · exact OpOK.same (live_seq hs)
+      · split
+        · exact OpOK.same (live_seq hs)
+        · exact OpOK.same (live_other h _)
   · exact OpOK.same (live_seq hs)
 
 theorem fresh_clone (h : Heap) (s : Slice) : Fresh h.length h (Impl.clone h s) :=
@@ -254,7 +265,7 @@ theorem opOK_withItem (h : Heap) (s : Slice) (off : Int) (count : Nat) (at_ : In
       · have f1 : Fresh h.length h (mkSlice h none s.len 0) := Fresh.ofMk (Frame.start h) (Nat.le_refl _) _ _ _
         split
         · exact OpOK.ofFresh ((f1.copy (read h s)).store _ [some item]) _ _ _
-        · exact ⟨(f1.copy (read h s)).frame, live_err _⟩
+        · exact ⟨(f1.copy (read h s)).frame, live_other _ _⟩
 
 theorem opOK_arrWithout (h : Heap) (s : Slice) (off : Int) (count : Nat) (at_ : Int) (item : V)
     (hs : s.arr < h.length) : OpOK h (Impl.arrWithout h s off count at_ item) := by
@@ -262,9 +273,9 @@ theorem opOK_arrWithout (h : Heap) (s : Slice) (off : Int) (count : Nat) (at_ : 
   simp only []
   split
   · split
-    · exact OpOK.same (live_seq hs)
+    · exact OpOK.same ((inArr_newOffsetArray h _ (reslice s 1 s.len)).live hs)
     · split
-      · exact OpOK.same (live_seq hs)
+      · exact OpOK.same ((inArr_newOffsetArray h _ (reslice s 0 (s.len - 1))).live hs)
       · have f := (fresh_clone h s).store (at_ - off).toNat [none]
         split
         · exact ⟨f.frame, live_hnone _⟩
